@@ -69,6 +69,10 @@ def run(ck):
     from . import c15
     cuts, impls, LS, RS = c15.collect_cuts(RuleView(ck, {}))
     c15.per_side_cuts(ck, "C04.10", cuts, impls, LS, RS)
+    ck.clause("C04.12", "the label tables the cut is counted in hold every label of their map inside the segment - pairs and unpaired "
+                        "labels of that side (as C15.8): otherwise a label unpaired in one segment and paired in the other is kept by "
+                        "both and scored twice")
+    c15.label_characteristics(RuleView(ck, {"C15.8": "C04.12"}), "C15.8")
 
 
 # ------------------------------------------------------------------------------------------------------------ C04.1
